@@ -48,6 +48,8 @@ def formulas(tier):
         "y ~ g:poly(x, 2, raw=True)", "y ~ 0 + f:poly(x, 2, raw=True)", "y ~ (1|g) + (1|h) + (0 + x|g)", "y ~ (x|g + h)", "y ~ (0 + g:poly(x, 2, raw=True)|f)",
         # numeric columns used as grouping factors (ids, years)
         "y ~ (1|k)", "y ~ (x|kb)", "y ~ (1|k:f)", "y ~ (1|kf)",
+        # parameters of a stateful transform given through names of the caller (re-bound after training)
+        "y ~ poly(x, deg, raw=True)", "y ~ poly(x, deg, raw=rawflag):f", "y ~ (poly(x, deg, raw=True)|g)",
     ]
     if tier != "quick":
         f += ["y ~ x*f*g", "y ~ center(x)*f", "y ~ scale(x) + scale(z) + scale(x):scale(z)", "y ~ poly(x, 4, raw=True) + poly(z, 2, raw=True)",
@@ -107,8 +109,8 @@ def harness(env, case):
     formula, flavour, concrete = case
     tier = harness.tier
     vars_ = gen.used_vars(formula)
-    df, rows = gen.build_frame(env, vars_, flavour, "scramble", concrete=concrete, min_rows=5)
-    ns = {"lv": list(LV), "shift": Shift}
+    df, rows = gen.build_frame(env, vars_, flavour, "scramble", concrete=concrete, min_rows=8 if concrete else 5, reps=4 if concrete else 1)
+    ns = {"lv": list(LV), "shift": Shift, "deg": 2, "rawflag": True}
     if concrete and "x" in df:
         lo, hi = float(np.min(df["x"])), float(np.max(df["x"]))
         ns["kn"] = [lo + 0.3 * (hi - lo), lo + 0.65 * (hi - lo)]
@@ -124,6 +126,7 @@ def harness(env, case):
     # re-ordered / overwritten in place after training -- the design must not follow them
     ns["lv"].reverse()
     ns["lv"].append(4)
+    ns["deg"], ns["rawflag"] = 3, False
     if "kn" in ns:
         ns["kn"][0] = ns["kn"][0] + 0.5
     mats = []
